@@ -342,10 +342,30 @@ func (p *Parser) parseSpecs(specs []srcInput, listener *TreeShapeListener) (*sys
 		}
 	}
 
+	if err := p.finishModule(specs, listener); err != nil {
+		return nil, err
+	}
+	return listener.module, nil
+}
+
+// finishModule runs the stages that look at the merged module as a whole (linting,
+// post-processing). They panic on input they cannot handle (a nested transform without
+// a declared type whose statements are plain assignments, ...); like walkTree does for
+// the tree walk, report that as a parse error instead of crashing.
+func (p *Parser) finishModule(specs []srcInput, listener *TreeShapeListener) (err error) {
+	defer func() {
+		if r := recover(); r != nil {
+			name := ""
+			if len(specs) > 0 {
+				name = specs[0].src.filename
+			}
+			err = syslutil.Exitf(ParseError, "%s: %v\n", name, r)
+		}
+	}()
 	listener.lintAppDefs()
 	listener.lintEndpoint()
 	p.postProcess(listener.module)
-	return listener.module, nil
+	return nil
 }
 
 // Takes a starting file and flattens all the imports that were already retrieved into an ordered list (recursively)
